@@ -139,12 +139,13 @@ Definition set_pc (s : st) (p : pc) : st :=
 Definition managed (s : st) : bool :=
   match s_pc s with PIdle => false | _ => true end.
 
-(** DEFECT C13_1: retryMonitor's deferred [m.Reconnect(ta.name)] and the
-    receive-timeout goroutine's [m.Reconnect(ta.name)] look the target up BY
-    NAME.  When the name has been removed and added again they cancel the
-    sub-context of the NEW incarnation (a spurious forced reconnect).  With
-    fixes/C13_1_reconnect_by_identity.diff they act on their own target object;
-    this constant then becomes [false]. *)
+(** DEFECT C13_1 (fixed in /repo by ada8f84): retryMonitor's deferred
+    [m.Reconnect(ta.name)] and the receive-timeout goroutine's
+    [m.Reconnect(ta.name)] used to look the target up BY NAME; when the name
+    had been removed and added again they cancelled the sub-context of the NEW
+    incarnation (a spurious forced reconnect).  They now act on their own
+    target object ([forceReconnect]), so this constant is [false]; with [true]
+    the model is the unpatched code (the branch is kept for reference). *)
 Definition stale_reconnect_by_name : bool := false.
 
 (** * Hidden steps *)
@@ -168,7 +169,8 @@ Definition tau (c : cfg) (s : st) : list st :=
    then [{| s_pc := s_pc s; s_rmc := s_rmc s; s_cdone := s_cdone s; s_sdone := true; s_rc := s_rc s;
             s_hu := s_hu s; s_stale := s_stale s; s_phu := s_phu s; s_add := s_add s |}] else [])
   ++
-  (* DEFECT C13_1: a Reconnect-by-name left over from an earlier incarnation *)
+  (* DEFECT C13_1 (fixed): a Reconnect-by-name left over from an earlier incarnation;
+     dead now that [stale_reconnect_by_name] is [false] *)
   (if stale_reconnect_by_name && managed s && negb (s_sdone s)
    then (match s_stale s with
          | S k => [{| s_pc := s_pc s; s_rmc := s_rmc s; s_cdone := s_cdone s; s_sdone := true;
